@@ -99,5 +99,5 @@ PLAN = {
     "C02": {"verus": ["table_cmp"], "level": "proof"},
     "C03": {"verus": ["packet_parse"], "level": "proof",
             "kani": ["bfd_decode_total_and_exact", "bfd_decode_mustfail", "rtr_frame_length_contract",
-                     "rtr_from_bytes_total", "rtr_decode_framing", "bgp_try_parse_framing"]},
+                     "rtr_from_bytes_total", "rtr_decode_framing", "bgp_try_parse_framing", "c03_nlri_ipv4", "c03_nlri_ipv6"]},
 }
